@@ -504,6 +504,17 @@ var c18Locs = func() []*time.Location {
 	return locs
 }()
 
+// process-local zones tried by the cases that depend on time.Local
+var c18Locals = func() []*time.Location {
+	locs := []*time.Location{time.FixedZone("CET", 3600)}
+	for _, name := range []string{"Europe/Paris", "America/New_York"} {
+		if l, err := time.LoadLocation(name); err == nil {
+			locs = append(locs, l)
+		}
+	}
+	return locs
+}()
+
 // instants around zone transitions of the real zones above (UTC)
 var c18Transitions = []time.Time{
 	time.Date(2021, 3, 28, 1, 0, 0, 0, time.UTC),   // Paris spring forward
@@ -836,8 +847,14 @@ func init() {
 		loc := c18Locs[c.p[0]]
 		liftMap(c, fmt.Sprintf("rotime.In(%q)", loc.String()), genItems(c, genTime), rotime.In(loc), func(t time.Time) time.Time { return t.In(loc) }, snapTime, snapTime)
 	})
-	regLift("time.Parse", []int{len(c18Layouts)}, func(c *liftCtx) {
+	regLift("time.Parse", []int{len(c18Layouts), 1 + len(c18Locals)}, func(c *liftCtx) {
 		l := c18Layouts[c.p[0]]
+		if len(c.p) > 1 && c.p[1] > 0 && c.p[1] <= len(c18Locals) {
+			// time.Parse resolves zone abbreviations and offsets against the process-local zone: the
+			// process lives somewhere else than UTC for the duration of this case
+			defer func(old *time.Location) { time.Local = old }(time.Local)
+			time.Local = c18Locals[c.p[1]-1]
+		}
 		liftMapErr(c, fmt.Sprintf("rotime.Parse(%q)", l), genItems(c, genTimeStr(l)), rotime.Parse[string](l), func(s string) (time.Time, error) { return time.Parse(l, s) }, snapStr, snapTime)
 	})
 	regLift("time.ParseInLocation", []int{len(c18Layouts), len(c18Locs)}, func(c *liftCtx) {
